@@ -532,20 +532,28 @@ impl Session {
                 let f = self.files.get_mut(&h).ok_or("no file handle")?;
                 fres!(f.write(&data), |k: usize| format!("{}", k))
             }
-            "write_all" => {
+            "write_all" | "write_pat" => {
+                // the default Write::write_all loop, done here so that the number of bytes written before a failure
+                // can be reported: "ok <n>" | "err <Variant> <written>"
                 let h = num(1)? as u32;
-                let data = unhex(arg(2)?);
+                let data: Vec<u8> = if t[0] == "write_all" {
+                    unhex(arg(2)?)
+                } else {
+                    // write_pat <fh> <n> <seed>:  b[i] = (seed + i*7 + i/251) mod 256
+                    let n = num(2)? as usize;
+                    let seed = num(3)?;
+                    (0..n).map(|i| ((seed + (i as u64) * 7 + (i as u64) / 251) % 256) as u8).collect()
+                };
                 let f = self.files.get_mut(&h).ok_or("no file handle")?;
-                fres!(f.write_all(&data), |_| String::new())
-            }
-            "write_pat" => {
-                // write_pat <fh> <n> <seed>: write_all of n bytes  b[i] = (seed + i*7 + i/251) mod 256
-                let h = num(1)? as u32;
-                let n = num(2)? as usize;
-                let seed = num(3)?;
-                let data: Vec<u8> = (0..n).map(|i| ((seed + (i as u64) * 7 + (i as u64) / 251) % 256) as u8).collect();
-                let f = self.files.get_mut(&h).ok_or("no file handle")?;
-                fres!(f.write_all(&data), |_| String::new())
+                let mut done = 0usize;
+                while done < data.len() {
+                    match f.write(&data[done..]) {
+                        Ok(0) => return Ok(Res::Err(format!("WriteZero {}", done))),
+                        Ok(k) => done += k,
+                        Err(e) => return Ok(Res::Err(format!("{} {}", err_name(&e), done))),
+                    }
+                }
+                Ok(Res::Ok(format!("{}", done)))
             }
             "seek" => {
                 let h = num(1)? as u32;
